@@ -13,7 +13,7 @@ claimed={
         "DESIGN.md §3.4, §7 C04"),
  "C05":("Sufficient condition for race freedom: the same FRAME obligations as C04 (no query writes memory that existed before it started, so concurrent queries only read shared state) plus absence of goroutines/sync in the verified packages; interleavings are not enumerated.",
         "DESIGN.md §7 C05"),
- "C17":("Copy(): contracts generated from the receiver type's definition, one obligation per field and kind (value equality, nil-ness, dynamic type kept, container freshly allocated, length kept, elements freshly allocated / equal, keys from the source), proved on the real Copy bodies with automatically synthesised element-wise loop invariants.",
+ "C17":("Copy(): contracts generated from the receiver type's definition, one obligation per field and kind (value equality, nil-ness, dynamic type kept, container freshly allocated, length kept, elements freshly allocated / equal, keys from the source), proved on the real Copy bodies with automatically synthesised element-wise loop invariants; the SAFE obligations of the Copy methods (a Copy that panics yields no copy). Refuted COPY obligations are replayed on the real code with receivers built from the type definition.",
         "DESIGN.md §3.6, §7 C17"),
 }
 reasons_na={
@@ -39,6 +39,6 @@ m={"version":1,"setup_cmd":"./setup.sh",
  "hooks":{"guard":"verif","enable":"govc loads /repo with go/packages BuildFlags -tags=verif; the guarded files zz_verif_contracts.go are comment-only (package clause + //@ contract lines) and add no code",
    "baseline_off_cmd":"cd /repo && GOFLAGS=-mod=mod go test -vet=off -count=1 -timeout 25m ./...","source_commits":hooks,"add_only":True},
  "engines":[{"name":"govc","path":"/verif/engine","serves_properties":sorted(claimed),"kind_free_text":"verification-condition generator over go/ssa of the real packages; contracts in guarded comment files in /repo plus generated COPY contracts; obligations discharged by z3 5.1.0 / z3 4.8.12 / cvc5 1.0.3"}],
- "checks":checks,"notes":"see DESIGN.md; ./check <id> quick|thorough; known findings in KNOWN_FINDINGS.json","not_applicable":na}
+ "checks":checks,"notes":"see DESIGN.md section 0; ./check <id> quick|thorough; ./check --replay <file>; known findings in KNOWN_FINDINGS.json; seeded changes in seeded/, behaviour-preserving changes in benign/","not_applicable":na}
 json.dump(m,open('/verif/MANIFEST.json','w'),indent=1)
 print("claimed",sorted(claimed),"hooks",hooks)
